@@ -896,7 +896,7 @@ fn lexicon(variant: usize) -> Vec<Row> {
 
 impl Dicts {
     fn new() -> Result<Dicts, String> {
-        let wd = Workdir::new("c15");
+        let wd = Workdir::new_legacy("c15");
         wd.write("char.def", &char_def());
         let pos = default_pos();
         let matrix = Matrix { nl: 1, nr: 1, cells: vec![0] };
